@@ -130,6 +130,8 @@ type run struct {
 	stash        map[string]value
 	stubs        map[string]value
 	pin          map[string]string
+	bounds       map[string]interval
+	tickBound    bool
 	atomicDepth  int
 }
 
@@ -194,7 +196,14 @@ func (r *run) branch(c *sym) bool {
 		return false
 	}
 	rt := r.solver.CheckWith(c.t)
-	rf := r.solver.CheckWith(smtNot(c.t))
+	rf := Unknown
+	if !r.solver.dead {
+		rf = r.solver.CheckWith(smtNot(c.t))
+	}
+	if r.solver.dead {
+		r.inconclusive("solver hard timeout on branch condition " + truncate(c.t, 200))
+		panic(pathEnd{"solver dead"})
+	}
 	if rt == Unknown || rf == Unknown {
 		r.inconclusive("solver unknown on branch condition " + truncate(c.t, 200))
 	}
@@ -225,6 +234,9 @@ func truncate(s string, n int) string {
 
 func (r *run) assertPC(t string) {
 	r.solver.Assert(t)
+	if len(t) < 400 {
+		r.learnBounds(t)
+	}
 }
 
 func (r *run) fresh(kind string, label string, sort Sort) *sym {
@@ -462,6 +474,11 @@ func (r *run) quiescent() {
 		}
 	}
 	if len(blocked) > 0 {
+		if r.tickBound {
+			// a ticker was cut off by the unwinding bound: longer waits are outside the bound
+			r.reached["bound:ticker-unwinding"] = true
+			return
+		}
 		if r.h.allowDeadlock {
 			r.reached["deadlock"] = true
 		} else {
@@ -804,11 +821,13 @@ func (r *run) fireTimer(tm *timerv) {
 	r.assertPC(sx(">=", c.t, tm.deadline))
 	r.assertPC(sx("<", c.t, "4000000000000000000"))
 	r.now = c.t
+	r.ticks++
 	if tm.period != "" {
 		tm.ticks++
 		tm.deadline = sx("+", tm.deadline, tm.period)
 		if tm.ticks >= r.h.maxTicks {
 			tm.stopped = true
+			r.tickBound = true
 		}
 	} else {
 		tm.fired = true
